@@ -1,6 +1,7 @@
 import SmtpV.Model.Client
 import SmtpV.Spec.ClientMon
 import SmtpV.Proofs.OneLine
+import SmtpV.Proofs.ParamGated
 /-!
 # C15 — the client writes one command line per call and only negotiated parameters
 
@@ -315,6 +316,74 @@ theorem C15_unoffered_is_error (ext : List (Bytes × Bytes)) (a : Bytes) (o : Ma
   split
   · rfl
   · simp [hp]
+
+/-! ### per extension: each parameter only when its extension was offered -/
+
+/-- **C15_mail_params_gated.**  Whatever options are requested, the MAIL line is the address followed by six pieces,
+    one per extension, and each piece is empty unless its extension is in the capabilities of the latest EHLO
+    (`ext`); a requested REQUIRETLS or SMTPUTF8 is on the line (never dropped). -/
+theorem C15_mail_params_gated (ext : List (Bytes × Bytes)) (frm : Bytes) (o : MailOptions) (l : Bytes)
+    (h : mailLine ext frm (some o) = some l) :
+    ∃ b s t u d a : Bytes, l = "MAIL FROM:<".b ++ frm ++ ">".b ++ (b ++ s ++ t ++ u ++ d ++ a) ∧
+      (b = [] ∨ (hasExt ext "8BITMIME" = true ∧ (b = " BODY=7BIT".b ∨ b = " BODY=8BITMIME".b)) ∨
+        (hasExt ext "BINARYMIME" = true ∧ b = " BODY=BINARYMIME".b)) ∧
+      (s = [] ∨ (hasExt ext "SIZE" = true ∧ s = " SIZE=".b ++ intToDec o.size)) ∧
+      ((t = [] ∧ o.requireTLS = false) ∨ (hasExt ext "REQUIRETLS" = true ∧ o.requireTLS = true ∧ t = " REQUIRETLS".b)) ∧
+      ((u = [] ∧ o.utf8 = false) ∨ (hasExt ext "SMTPUTF8" = true ∧ o.utf8 = true ∧ u = " SMTPUTF8".b)) ∧
+      (d = [] ∨ (hasExt ext "DSN" = true ∧ ∃ r e, d = r ++ e ∧ (r = [] ∨ r = " RET=FULL".b ∨ r = " RET=HDRS".b) ∧
+        (e = [] ∨ e = " ENVID=".b ++ encodeXtext o.envid))) ∧
+      (a = [] ∨ (hasExt ext "AUTH" = true ∧ ∃ x, o.auth = some x ∧
+        a = (if x.isEmpty then " AUTH=<>".b else " AUTH=".b ++ encodeXtext x))) := by
+  unfold mailLine at h
+  split at h
+  · cases h
+  · split at h
+    · cases h
+    · rename_i ps hps
+      cases h
+      obtain ⟨b, t, u, d, hb, ht, hu, hd, rfl⟩ := mailParams_gated ext o ps hps
+      refine ⟨b, sizeParam ext o, t, u, d, authParam ext o, rfl, bodyParam_gated ext _ b hb, sizeParam_gated ext o,
+        requireTLSParam_gated ext o t ht, utf8Param_gated ext o u hu, ?_, authParam_gated ext o⟩
+      rcases dsnMailParams_gated ext o d hd with h | ⟨he, r, e, hr, hen, rfl⟩
+      · exact Or.inl h
+      · exact Or.inr ⟨he, r, e, rfl, retParam_shape o r hr, envidParam_shape o e hen⟩
+
+/-- without options only BODY= may follow the address, and only when 8BITMIME was offered -/
+theorem C15_mail_default_gated (ext : List (Bytes × Bytes)) (frm : Bytes) (l : Bytes) (h : mailLine ext frm none = some l) :
+    l = "MAIL FROM:<".b ++ frm ++ ">".b ∨ (hasExt ext "8BITMIME" = true ∧ l = "MAIL FROM:<".b ++ frm ++ ">".b ++ " BODY=8BITMIME".b) := by
+  unfold mailLine at h
+  split at h
+  · cases h
+  · split at h
+    · cases h
+    · rename_i ps hps
+      cases h
+      have hb := mailParams_none_gated ext ps hps
+      have h1 : ("8BITMIME".b == "7BIT".b) = false := by decide +kernel
+      have h2 : ("8BITMIME".b == "8BITMIME".b) = true := by decide +kernel
+      unfold bodyParam at hb
+      simp only [h1, h2, if_true, Bool.false_eq_true, if_false] at hb
+      cases hb
+      by_cases he : hasExt ext "8BITMIME" = true
+      · right; exact ⟨he, by simp [he]⟩
+      · left; simp [he]
+
+/-- **C15_rcpt_params_gated.**  The RCPT line: NOTIFY= and ORCPT= only when DSN was offered, RRVS= only when RRVS was. -/
+theorem C15_rcpt_params_gated (ext : List (Bytes × Bytes)) (to : Bytes) (o : RcptOptions) (l : Bytes)
+    (h : rcptLine ext to (some o) = some l) :
+    ∃ n oc rv : Bytes, l = "RCPT TO:<".b ++ to ++ ">".b ++ (n ++ oc ++ rv) ∧
+      ((n = [] ∧ oc = []) ∨ (hasExt ext "DSN" = true ∧ notifyParam o = some n ∧ orcptParam ext o = some oc)) ∧
+      (rv = [] ∨ (hasExt ext "RRVS" = true ∧ ∃ t, o.rrvs = some t ∧ rv = " RRVS=".b ++ formatRFC3339 t.1 t.2)) := by
+  unfold rcptLine at h
+  split at h
+  · cases h
+  · simp only [] at h
+    split at h
+    · cases h
+    · rename_i ps hps
+      cases h
+      obtain ⟨n, oc, rfl, hg⟩ := rcptParams_gated ext o ps hps
+      exact ⟨n, oc, rrvsParam ext o, rfl, hg, rrvsParam_gated ext o⟩
 
 /-! ### non-vacuity: a hostile ORCPT with CR LF and a command behind it, DSN and SMTPUTF8 offered -/
 
